@@ -62,4 +62,24 @@ def run(ctx):
         "codecs (@base64, @uri, tojson/fromjson) are checked by round trip only, not against an independent codec",
     ]
 
-# MUTANTS: see bottom of file (filled in after mutation testing)
+
+# MUTANTS (scratch worktree /tmp/wt-jq, VERIF_REPO=...; quick tier, seed 20260921; model stage skipped with the
+# development knob VERIF_DEV_SKIP_MODEL=1 because it does not depend on /repo).  M1 and M4 were run alone; M2,M3,M5,
+# M6,M7,M8 were applied TOGETHER in one build (CPU budget: a from-scratch build took 15 min on the shared box) -- the
+# check exits 1 on the combination, and detection is attributed per mutant from the list of ALL rejected events
+# (pre-pass scan / per-law sub-traces), so "caught" below means: at least one rejected event is explained by that
+# mutant alone.
+#   M1 eval_generic.rs only: to_entries drops the last field of an object
+#   M2 eval.rs compare_values: objects compared by values before keys
+#   M3 eval.rs builtin_add: `add` on an empty array/object -> 0 instead of null
+#   M4 eval.rs eval_limit: limit(0; f) emits one output
+#   M5 error.rs cannot_iterate: "Cannot iterate over" -> "cannot iterate over"
+#   M6 eval.rs set_value_at_path: setpath through an array index truncates the later siblings
+#   M7 eval.rs compare_values: strings ordered by length first
+#   M8 eval.rs builtin_unique: no deduplication
+#   C25: M1 caught (VIOLATION, law entries via generic: `to_entries | from_entries` loses the last field).
+#        Combined build: VIOLATION at event 6 (law sort).  Per-law sub-traces: sort on string arrays rejected (M7); sort on
+#        [{"a":"","k":1},{},{},{"c":"a","a":"ab"}] rejected with the value-first order (M2; the obj_order_array value
+#        family was added for this); unique on [-1, x, x] rejected (M8); `setpath(p; v)` and `setpath(p; getpath(p))`
+#        rejected, `p = v` / `p |= v` (other code path) accepted (M6); entries/stream/getpath/paths accepted (unaffected).
+#        M3, M4, M5 do not touch an identity of C25 (not expected to be caught here).
